@@ -612,8 +612,15 @@ def gen_extended(rng, kind):
     w = rng.choice([3, 5]) if meth == "census" else rng.choice([1, 3, 3, 5])
     pipe = {"matching_cost": {"matching_cost_method": meth, "window_size": w, "subpix": rng.choice([1, 1, 2])}}
     if kind == "amb":
-        pipe["cost_volume_confidence"] = {"confidence_method": "ambiguity", "eta_max": rng.choice([0.7, 0.5]),
-                                          "eta_step": rng.choice([0.01, 0.05, 0.125]), "normalization": False}
+        cm = rng.choice(["ambiguity", "risk", "interval_bounds"])
+        if cm == "interval_bounds":
+            pipe["cost_volume_confidence"] = {"confidence_method": cm, "possibility_threshold": rng.choice([0.9, 0.75, 0.5]),
+                                              "regularization": False}
+        else:
+            pipe["cost_volume_confidence"] = {"confidence_method": cm, "eta_max": rng.choice([0.7, 0.5]),
+                                              "eta_step": rng.choice([0.01, 0.05, 0.125])}
+            if cm == "ambiguity":
+                pipe["cost_volume_confidence"]["normalization"] = False
     pipe["disparity"] = {"disparity_method": "wta", "invalid_disparity": rng.choice([-9999, "NaN", -9999])}
     ref = lambda: {"refinement_method": rng.choice(["vfit", "vfit", "quadratic"])}
     med = lambda: {"filter_method": "median", "filter_size": rng.choice([3, 3, 5])}
@@ -709,7 +716,12 @@ def composed_ext_vs_run(ctx, report, gs, label, kind):
     etas = []
     if "cost_volume_confidence" in pipe:
         c = pipe["cost_volume_confidence"]
-        etas = cf.numba_etas(float(c["eta_max"]), float(c["eta_step"]))
+        payload["conf_method"] = c["confidence_method"]
+        report.count("extended_confidence_" + c["confidence_method"])
+        if c["confidence_method"] == "interval_bounds":
+            payload["conf_threshold"] = core.enc(cf.f32(float(c["possibility_threshold"])))
+        else:
+            etas = cf.numba_etas(float(c["eta_max"]), float(c["eta_step"]))
     payload["etas"] = [core.enc(e) for e in etas]
     payload["spots"] = [[rows // 2, cols // 2], [rng.randrange(rows), rng.randrange(cols)]]
     model = ctx.lean.call("C13.xrun", **payload)
@@ -746,6 +758,36 @@ def composed_ext_vs_run(ctx, report, gs, label, kind):
         if s is not None:
             cells("matching_cost", side, s["cv"], M["mc"], True)
             masks("matching_cost", side, s["mask"], M["flags"])
+        if "cost_volume_confidence" in pipe and "cost_volume_confidence" in steps and (M.get("risk") is not None or M.get("bounds") is not None):
+            # risk (max, min) / interval bounds (inf, sup): two bands; pixels whose margin is below 1e-5 are skipped
+            key, names2, tol2 = ("risk", (("max", "confidence_from_risk_max"), ("min", "confidence_from_risk_min")), 1e-5) if M.get("risk") is not None \
+                else ("bounds", (("inf", "confidence_from_interval_bounds_inf"), ("sup", "confidence_from_interval_bounds_sup")), 1e-6)
+            bands = steps["cost_volume_confidence"].get("conf", {}).get(side, {})
+            n_ok = n_small = 0
+            for k2, nm in names2:
+                band = bands.get(nm)
+                if band is None:
+                    note("cost_volume_confidence", side, "band " + nm, {"impl": "absent", "model": "present"})
+                    continue
+                for r in range(rows):
+                    for c in range(cols):
+                        mg = M[key]["margin"][r][c]
+                        if mg is not None and core.dec(mg) < Fraction(1, 100000):
+                            n_small += 1
+                            continue
+                        m = core.dec(M[key][k2][r][c])
+                        v = float(band[r, c])
+                        if (isinstance(m, float) and v != v) or (not isinstance(m, float) and v == v and abs(v - float(m)) <= tol2 * max(1.0, abs(float(m)))):
+                            n_ok += 1
+                        else:
+                            note("cost_volume_confidence", side, key + " band " + k2, {"index": [r, c], "impl": core.enc(v), "model": core.enc(m)})
+            report.count(f"extended_cells_{key}_bands", n_ok)
+            report.count(f"extended_cells_{key}_small_margin_skipped", n_small)
+            s2 = steps["cost_volume_confidence"].get(side)
+            if s2 is not None:
+                cells("cost_volume_confidence", side, s2["cv"], M["mc"], True)
+                masks("cost_volume_confidence", side, s2["mask"], M["flags"])
+                report.hit("later_stages_unchanged_by_confidence_step")
         if "cost_volume_confidence" in pipe and "cost_volume_confidence" in steps and M["amb"] is not None:
             band = steps["cost_volume_confidence"].get("conf", {}).get(side, {}).get("confidence_from_ambiguity")
             if band is None:
@@ -857,12 +899,127 @@ def cmp_cells_tol(impl, model, tol):
     return n, 0, None
 
 
+# --------------------------------------------------------------------------------------------
+# two scales: coarse chain, next-level interval grids (C15's model), fine chain on per-pixel grids
+# --------------------------------------------------------------------------------------------
+def two_scale_vs_run(ctx, report, gs, label):
+    """`matching_cost, disparity, [filter median], multiscale (fixed_zoom_pyramid, 2 scales, factor 2, marge 0..2)` through the
+    real `pandora.run` and through `twoScaleRun` (Model/PipelineRun.lean); the coarse images are taken from the real pyramid"""
+    rng = random.Random(gs)
+    rows, cols = rng.choice([(12, 18), (14, 20), (11, 17), (13, 22)])
+    lo = rng.choice([-4, -2, 0])
+    hi = lo + rng.choice([2, 4])
+    meth = rng.choice(["census", "census", "sad"])
+    w = rng.choice([3, 5]) if meth == "census" else rng.choice([1, 3])
+    marge = rng.choice([0, 1, 2])
+    pipe = {"matching_cost": {"matching_cost_method": meth, "window_size": w, "subpix": 1},
+            "disparity": {"disparity_method": "wta", "invalid_disparity": rng.choice([-9999, "NaN"])}}
+    if rng.random() < 0.5:
+        pipe["filter"] = {"filter_method": "median", "filter_size": 3}
+    pipe["multiscale"] = {"multiscale_method": "fixed_zoom_pyramid", "num_scales": 2, "scale_factor": 2, "marge": marge}
+    left, right = pl.make_pair(rng, rows, cols, lo, hi, masks=False, smooth=rng.random() < 0.5)
+    case = {"label": label, "pipeline": pipe, "shape": [rows, cols], "disp": [lo, hi]}
+    res = pl.run_pipeline_traced(left.copy(deep=True), right.copy(deep=True), pipe)
+    report.count("two_scale_runs")
+    if "error" in res:
+        report.count(f"two_scale_run_raises_{res['error']}_at_{res['at']}")
+        report.case(key=json.dumps(["two_scale", gs]), nontrivial=False)
+        return True
+    names = [n for n, _ in res["steps"]]
+    cut = names.index("multiscale") + 1
+    coarse, fine = dict(res["steps"][:cut]), dict(res["steps"][cut:])
+    src = source_variants()
+    enc2 = lambda a: [[core.enc(float(v)) for v in row] for row in a]
+
+    def mc_input(snap, dmin, dmax):
+        im = snap["images"]
+        r, c = im["left"]["im"].shape
+        return {"meas": meth, "w": w, "sp": 1, "rows": r, "cols": c, "L": [enc2(im["left"]["im"])], "R": [enc2(im["right"]["im"])],
+                "mL": None, "mR": None, "valid": 0, "nodata": 1, "dmin": [[dmin] * c for _ in range(r)], "dmax": [[dmax] * c for _ in range(r)]}
+
+    tail = [{"kind": "median", "fs": 3, "split": split_of("median", 3)}] if "filter" in pipe else []
+    inv = pipe["disparity"]["invalid_disparity"]
+    model = ctx.lean.call("C13.twoscale", coarse=mc_input(coarse["matching_cost"], lo // 2, hi // 2), fine=mc_input(fine["matching_cost"], lo, hi),
+                          invalid="nan" if isinstance(inv, str) else inv, invalid_mask=src["invalid_mask"], split_wta=split_of("wtaArgmin", 0),
+                          tail=tail, marge=marge, f=2, user_min=core.enc(Fraction(lo, 2)), user_max=core.enc(Fraction(hi, 2)))
+    bad = []
+    if model == "raises":
+        bad.append({"stage": "model", "what": "raises", "diff": {}})
+        model = None
+
+    def note(stage, what, diff):
+        if diff is not None:
+            bad.append({"stage": stage, "what": what, "diff": diff})
+
+    if model is not None:
+        last = "filter" if "filter" in pipe else "disparity"
+        # coarse level: Gaussian-filtered radiometry (float32): census costs are exact, sad costs are float32 sums
+        M = model["coarse"]
+        s = coarse["matching_cost"]["left"]
+        n, _, diff = cmp_cells_tol(s["cv"], M["mc"], 1e-5)
+        report.count("two_scale_cells_coarse_cost_volume", n)
+        note("coarse matching_cost", "values", diff)
+        n, diff = cmp_masks(s["mask"], M["flags"])
+        note("coarse matching_cost", "flags", diff)
+        # a coarse winner decided by less than 1e-4 may differ in float32: those pixels are excused
+        ties = set()
+        for r_, row in enumerate(M["mc"]):
+            for c_, costs in enumerate(row):
+                v = sorted(float(core.dec(x)) for x in costs if x != "nan")
+                if len(v) > 1 and 0 < v[1] - v[0] < 1e-4 * max(1.0, abs(v[0])):
+                    ties.add((r_, c_))
+        cm = coarse[last]["left"]
+        if ties:
+            report.count("two_scale_runs_skipped_coarse_float_tie")
+        else:
+            n, _, diff = cmp_cells(cm["map"], M["final"]["disp"], True)
+            report.count("two_scale_cells_coarse_map", n)
+            note("coarse " + last, "values", diff)
+            n, diff = cmp_masks(cm["mask"], M["final"]["flag"])
+            note("coarse " + last, "flags", diff)
+            # next-level grids: what the fine matching cost receives
+            gmin, gmax = fine["matching_cost"]["grids"]
+            for nm, real, mod in (("min", gmin, model["grid_min"]), ("max", gmax, model["grid_max"])):
+                real = np.asarray(real)[:rows, :cols]
+                n, _, diff = cmp_cells(real, mod, True) if real.shape == (len(mod), len(mod[0])) else (0, 0, {"shape": [list(real.shape), [len(mod), len(mod[0])]]})
+                report.count("two_scale_cells_next_level_grid_" + nm, n)
+                note("next-level grid " + nm, "values", diff)
+            narrowed = int((np.asarray(gmax)[:rows, :cols] - np.asarray(gmin)[:rows, :cols] < hi - lo).sum())
+            report.count("two_scale_fine_pixels_with_narrowed_interval", narrowed)
+            M = model["fine"]
+            s = fine["matching_cost"]["left"]
+            n, _, diff = cmp_cells(s["cv"], M["mc"], True)  # NaN pattern and values (integer radiometry)
+            report.count("two_scale_cells_fine_cost_volume", n)
+            report.count("two_scale_cells_fine_cost_volume_nan", int(np.isnan(s["cv"]).sum()))
+            note("fine matching_cost", "values", diff)
+            n, diff = cmp_masks(s["mask"], M["flags"])
+            note("fine matching_cost", "flags", diff)
+            fm = fine[last]["left"]
+            if M["final"] == "raises":
+                note("fine " + last, "raises", {"impl": "returned", "model": "raises"})
+            else:
+                n, _, diff = cmp_cells(fm["map"], M["final"]["disp"], True)
+                report.count("two_scale_cells_final_map", n)
+                note("fine " + last, "values", diff)
+                n, diff = cmp_masks(fm["mask"], M["final"]["flag"])
+                report.count("two_scale_flags_final", n)
+                note("fine " + last, "flags", diff)
+            report.hit("two_scale_composed_run_equals_pandora_run")
+    if bad:
+        report.disagree("two-scale composed model run vs pandora.run: " + bad[0]["stage"] + " " + bad[0]["what"], dict(case, first=bad[0]),
+                        bad[0]["diff"].get("impl"), bad[0]["diff"].get("model"))
+        report.count("two_scale_runs_disagreeing")
+    report.case(key=json.dumps(["two_scale", gs, pipe], sort_keys=True), nontrivial=True,
+                sample={"two_scale": True, "pipeline": pipe, "shape": [rows, cols], "disp": [lo, hi]})
+    return not bad
+
+
 def run(ctx, report, status):
     report.rule = (
         "real differential: a local pipeline (matching cost, optional cbca, wta, optional refinement / median or bilateral filter / "
         "cross-checking) on a whole 12-16 x 20-26 pair and on crops at every offset parity (array coordinates reset or kept), "
         "disparity and flags compared bit for bit on the pixels whose dependency cone (clipped to the image) lies inside the crop; "
-        "plus wide strips crossing the 100-pixel blocks, cbca with no-data patches and tall 12-bit zncc pairs (crops far down the image); plus the vertically flipped pair; non-trivial = at least one cone-interior pixel compared; distinct by (seed, pipeline); plus the composed run of the step models (Lean: fullRun / fullRunCbca) against the real pandora.run on 6-10 x 9-14 pairs (sad/ssd/census, optional cbca, wta, optional vfit/quadratic, optional median, cross-checking; masks, per-pixel interval grids, ROI-offset coordinates), every intermediate product compared cell by cell; plus the extended composed run (extRunR) on the same kind of pairs: validation with interpolated_disparity mc-cnn / sgm after both cross-checks, repeated steps refinement.1 / filter.1, a bilateral filter last in the tail, a cost_volume_confidence ambiguity step (band compared, later stages unchanged)"
+        "plus wide strips crossing the 100-pixel blocks, cbca with no-data patches and tall 12-bit zncc pairs (crops far down the image); plus the vertically flipped pair; non-trivial = at least one cone-interior pixel compared; distinct by (seed, pipeline); plus the composed run of the step models (Lean: fullRun / fullRunCbca) against the real pandora.run on 6-10 x 9-14 pairs (sad/ssd/census, optional cbca, wta, optional vfit/quadratic, optional median, cross-checking; masks, per-pixel interval grids, ROI-offset coordinates), every intermediate product compared cell by cell; plus the extended composed run (extRunR) on the same kind of pairs: validation with interpolated_disparity mc-cnn / sgm after both cross-checks, repeated steps refinement.1 / filter.1, a bilateral filter last in the tail, a cost_volume_confidence ambiguity step (band compared, later stages unchanged); plus two-scale runs (matching_cost, disparity, [median], multiscale fixed_zoom_pyramid with 2 scales, marge 0-2) on 11-14 x 17-22 pairs: coarse map, next-level interval grids, fine cost volume and final map / flags compared with twoScaleRun"
     )
     HYPS["left"] = ctx.n(40, 400)
     src = source_variants()
@@ -900,10 +1057,14 @@ def run(ctx, report, status):
         composed_vs_run(ctx, report, gs, f"gen_seed={gs},composed_cbca", cbca=True)
     # the extended composed run (extRunR): filling after both cross-checks, repeated refinements / filters, bilateral filter,
     # ambiguity band
-    for kind, nq, nt in (("fill", 4, 50), ("repeat", 4, 50), ("bilateral", 3, 40), ("amb", 3, 40)):
+    for kind, nq, nt in (("fill", 4, 50), ("repeat", 4, 50), ("bilateral", 3, 40), ("amb", 4, 60)):
         for i in range(ctx.n(nq, nt)):
             gs = ctx.rng.randrange(1 << 30)
             composed_ext_vs_run(ctx, report, gs, f"gen_seed={gs},extended_{kind}", kind)
+    # two scales: coarse chain, next-level interval grids (C15's model), fine chain on the per-pixel grids
+    for i in range(ctx.n(4, 50)):
+        gs = ctx.rng.randrange(1 << 30)
+        two_scale_vs_run(ctx, report, gs, f"gen_seed={gs},two_scale")
 
 
 def search(ctx, report, status):
@@ -936,6 +1097,12 @@ def replay(ctx, report, path):
         # replay of a broken correspondence: the first disagreeing case of the composed stream
         case = data["correspondence_disagreements"][0]["case"]
     gs = int(re.search(r"gen_seed=(\d+)", case["label"]).group(1))
+    if case["label"].endswith(",two_scale"):
+        ok = two_scale_vs_run(ctx, report, gs, case["label"])
+        for d in report.disagreements:
+            print("disagreement:", d["what"], json.dumps(d["case"], default=str)[:400], d["impl"], d["model"])
+        print("replayed: disagreements=%d" % len(report.disagreements))
+        return 0 if ok else 1
     if ",extended_" in case["label"]:
         ok = composed_ext_vs_run(ctx, report, gs, case["label"], case["label"].split(",extended_")[1])
         for d in report.disagreements:
